@@ -7,6 +7,7 @@ import (
 	"os"
 	"strings"
 	"testing"
+	"time"
 
 	"github.com/prometheus/prometheus/internal/verif/vx"
 )
@@ -97,10 +98,10 @@ func TestVerifC48(t *testing.T) {
 		plans = []plan{{"base@small", 5}, {"ooo@small", 4}, {"base@medium", 3}, {"v2@medium", 2}, {"st@medium", 2}, {"base@small+dup", 3}, {"base@small+cp", 3}}
 	} else {
 		plans = []plan{
-			{"base@small", 7}, {"ooo@small", 6}, {"v2@small", 5}, {"st@small", 5},
-			{"base@medium", 4}, {"ooo@medium", 3}, {"v2@medium", 3}, {"st@medium", 3},
+			{"base@small", 6}, {"ooo@small", 5}, {"v2@small", 4}, {"st@small", 4},
+			{"base@medium", 3}, {"ooo@medium", 3}, {"v2@medium", 3}, {"st@medium", 3},
 			{"base@small+dup", 5}, {"base@small+cp", 5}, {"ooo@small+dup", 4}, {"v2@medium+cp", 3}, {"base@medium+dup", 3},
-			{"inmem@small", 5},
+			{"inmem@small", 4},
 		}
 	}
 	if v := os.Getenv("VERIF_C48_PLAN"); v != "" { // e.g. "base@small:5,ooo@small+dup:3"
@@ -119,8 +120,9 @@ func TestVerifC48(t *testing.T) {
 			break
 		}
 		c := agxParse(p.name)
+		t0 := time.Now()
 		res := r.BFS(p.name, func() vx.Sys { return agxWith(r, c, p.name, false) }, p.depth)
-		t.Logf("C48 %s depth %d: states=%d transitions=%d depthCompleted=%d", p.name, p.depth, res.States, res.Transitions, res.DepthCompleted)
+		t.Logf("C48 %s depth %d: states=%d transitions=%d depthCompleted=%d %.0fs", p.name, p.depth, res.States, res.Transitions, res.DepthCompleted, time.Since(t0).Seconds())
 	}
 	r.Set("rule", "explicit-state BFS over agent-DB operation histories (append float/histogram/custom-bucket histogram/exemplar in and out of order, commit, rollback, truncate with and without a due checkpoint, segment roll, restart) with canonical-state de-duplication; after every transition the WAL directory (last checkpoint + later segments, replay order) is decoded and compared with the accepted+committed items of the reference model, admission verdicts are compared with the out-of-order rule, and the three querier constructors must return ErrUnsupported. Plan names are config@alphabet[+prefix history].")
 	r.Assume("sample timestamps are positive; one appender open at a time; truncation may run while the appender holds uncommitted samples (as the background truncation loop can)")
